@@ -3,7 +3,11 @@ use vl_model::ctx::parse_args;
 
 mod c01;
 mod c02;
+mod c03;
 mod c04;
+mod c05;
+mod c07;
+mod fake;
 
 fn main() {
     let args = parse_args();
@@ -12,7 +16,10 @@ fn main() {
     match args.id.as_str() {
         "C01" => c01::run(&args),
         "C02" => c02::run(&args),
+        "C03" => c03::run(&args),
         "C04" => c04::run(&args),
+        "C05" => c05::run(&args),
+        "C07" => c07::run(&args),
         other => {
             eprintln!("vl-core: unknown property {}", other);
             std::process::exit(2)
